@@ -32,7 +32,7 @@ theorem ap_sum (n : ℕ) (A : ℤ) :
 noncomputable def trivTerm (x y q : ℕ) : ℤ :=
   if max q (x / (q * q)) < y then (π y : ℤ) - π (max q (x / (q * q))) else 0
 
-/-- what `S2_trivial` does with the result of its loop (S2_trivial.cpp:82-91) -/
+/-- what `S2_trivial` does with the result of its loop (S2_trivial.cpp:80-86) -/
 def trivFinal (t : NT) (y : ℕ) (piY : ℕ) (r : ℤ × Option ℕ) : LM ℤ :=
   match r.2 with
   | none => pure r.1
